@@ -18,7 +18,24 @@ def breakpoints(r, t, g, n):
         pts.update([a, b - 1, (a + b) // 2])
     pts = [p for p in pts if g['start'] <= p < g['end']]
     r.shuffle(pts)
+    # always one breakpoint that keeps exactly one intronic base (donor side on +, acceptor side on -)
+    one_in = [t['exons'][k][1] for k in range(len(t['exons']) - 1) if t['exons'][k + 1][0] - t['exons'][k][1] >= 2]
+    if one_in:
+        x = r.choice(one_in)
+        pts = [x] + [p for p in pts if p != x]
     return pts[:n]
+
+
+def gene_vars(small, gene, tx):
+    """the small variants of a gene in gene coordinates; own = the record names transcript tx (one entry per distinct variant)"""
+    out = {}
+    for v in small:
+        if v['gene'] != gene:
+            continue
+        k = (v['gstart'], v['gend'], v['ref'], v['alt'])
+        e = out.setdefault(k, dict(gs=v['gstart'], ge=v['gend'], ref=list(v['ref']), alt=list(v['alt']), id=v['id'], own=False))
+        e['own'] = e['own'] or v['tx'] == tx
+    return [out[k] for k in sorted(out)]
 
 
 def rows(tool, cases, genes):
@@ -166,7 +183,7 @@ def check_c15(tier, rep=None, only_complete=False):
             for ex in (tt.exons if tt.strand == 1 else list(reversed(tt.exons)))[:-1]:
                 cum += ex[1] - ex[0]
                 p_ = cum - 2
-                if rv.random() < 0.35 and p_ >= ((tt.cds_start + 3) if tt.coding else 3):
+                if rv.random() < 0.6 and p_ >= ((tt.cds_start + 3) if tt.coding else 3):
                     v = cvgen.snv_at(m['ref'], tt, sq, p_, rv.choice([b for b in 'ACGT' if b != sq[p_]]))
                     if not cvgen.overlaps_any(v, small):
                         small.append(v)
@@ -240,8 +257,8 @@ def check_c15(tier, rep=None, only_complete=False):
                                       records=[dict(d=dids.index(q['dtx']) + 1, a=aids.index(q['atx']) + 1, pos=q['pos'], accpos=q['accpos'])
                                                for q in mine if q['dtx'] in dids and q['atx'] in aids],
                                       peps=peps, dinfo=dinfo, cfg=cvgen.spec_cfg(CFG),
-                                      dvars=[[cvgen.var_record(v) for v in m['small'] if v['tx'] == t['id']] for t in c['dts']],
-                                      avars=[[cvgen.var_record(v) for v in m['small'] if v['tx'] == t['id']] for t in c['ats']],
+                                      dvars=[gene_vars(m['small'], gd['id'], t['id']) for t in c['dts']],
+                                      avars=[gene_vars(m['small'], ga['id'], t['id']) for t in c['ats']],
                                       cvran=bool(tool == 'star' and cv is not None and cv['ok']),
                                       allobs=[list(sq) for _, sq in cv['fasta']] if (tool == 'star' and cv is not None and cv['ok']) else [],
                                       proteome=cvgen.proteome_record(m['ref'])))
